@@ -244,7 +244,12 @@ type discInfo struct {
 }
 
 // heldAddrs: the mutexes a contract requires to be held ("requires held(x)" conjuncts), as address expressions.
-func heldRequires(fc *FuncContract) []*CExpr {
+func heldRequires(fc *FuncContract) []*CExpr { return namedRequires(fc, "held") }
+
+// confinedRequires: objects a contract declares not yet shared ("requires confined(x)").
+func confinedRequires(fc *FuncContract) []*CExpr { return namedRequires(fc, "confined") }
+
+func namedRequires(fc *FuncContract, fname string) []*CExpr {
 	var out []*CExpr
 	var walk func(e *CExpr)
 	walk = func(e *CExpr) {
@@ -256,7 +261,7 @@ func heldRequires(fc *FuncContract) []*CExpr {
 			walk(e.Y)
 			return
 		}
-		if e.Kind == "call" && e.X != nil && e.X.Kind == "ident" && e.X.Name == "held" && len(e.Args) == 1 {
+		if e.Kind == "call" && e.X != nil && e.X.Kind == "ident" && e.X.Name == fname && len(e.Args) == 1 {
 			out = append(out, e.Args[0])
 		}
 	}
@@ -403,9 +408,32 @@ func (fr *Frame) discCall(site ssa.Instruction, c *ssa.CallCommon, st *State) ([
 				fmt.Sprintf("calling %s, which may acquire %s (level %d), while holding a mutex of the same or a higher level", shortFn(g), minCl, min))
 		}
 		// locks the callee requires
-		fc := vc.eng.db.funcs[g.String()]
+		fc := vc.eng.db.discs[g.String()]
 		if fc == nil {
-			fc = vc.eng.db.funcs[stripTypeParams(g.String())]
+			fc = vc.eng.db.discs[stripTypeParams(g.String())]
+		}
+		if cs := confinedRequires(fc); len(cs) > 0 && !c.IsInvoke() {
+			binds := map[string]Binding{}
+			for i, p := range g.Params {
+				if i < len(c.Args) {
+					binds[p.Name()] = Binding{term: fr.val(c.Args[i]), typ: p.Type()}
+				}
+			}
+			ctx := &EvalCtx{vc: vc, st: st, old: st, inst: leaf("0"), fc: fc, pkg: vc.eng.pkgTypes(fc.Pkg), bound: map[string]TV{}}
+			ctx.lookup = func(name string) (Binding, bool) { b, ok := binds[name]; return b, ok }
+			top := fr
+			for top.parent != nil {
+				top = top.parent
+			}
+			for k, cx := range cs {
+				tv := fr.safeEval(ctx, cx)
+				fresh := app(">", app("base", tv.t), vc.wm(top.old))
+				for _, cc := range top.confined {
+					fresh = mkOr(fresh, mkEq(tv.t, cc))
+				}
+				vc.oblige("call-pre", fmt.Sprintf("call-pre#confined%d@%s#%d->%s", k, shortFn(fr.fn), ord, shortFn(g)), []string{"C17"}, st.guard, fresh, pos,
+					fmt.Sprintf("%s requires %s not to be shared yet (construction helper)", shortFn(g), cx))
+			}
 		}
 		if hs := heldRequires(fc); len(hs) > 0 && !c.IsInvoke() {
 			binds := map[string]Binding{}
@@ -471,9 +499,9 @@ func sortedCompKeys(vc *VC) []string {
 // discFunction generates the discipline obligations of one function.
 func (e *Engine) discFunction(fn *ssa.Function, d *discInfo) (vc *VC) {
 	vc = newVC(e, fn.String())
-	fc := e.db.funcs[fn.String()]
+	fc := e.db.discs[fn.String()]
 	if fc == nil {
-		fc = e.db.funcs[stripTypeParams(fn.String())]
+		fc = e.db.discs[stripTypeParams(fn.String())]
 	}
 	dummy := &FuncContract{Kind: "func", Key: fn.String(), Target: fn.String(), Loops: map[int]*LoopContract{}, Defines: map[string]*Macro{}, Specs: map[string]*SpecFun{}}
 	if fc != nil {
@@ -529,6 +557,14 @@ func (e *Engine) discFunction(fn *ssa.Function, d *discInfo) (vc *VC) {
 		}
 	}
 	vc.assume(tTrue, leaf(fmt.Sprintf("(forall ((hx Int)) (! (=> (select %s hx) %s) :pattern ((select %s hx))))", held0, mkOrEmptyFalse(allowed...), held0)))
+	if cs := confinedRequires(fc); len(cs) > 0 {
+		fr.collectNames()
+		ctx := fr.ctx(st, nil)
+		for _, c := range cs {
+			tv := fr.safeEval(ctx, c)
+			fr.confined = append(fr.confined, tv.t)
+		}
+	}
 	fr.old = st.clone()
 	fr.inst = leaf("0")
 	pos := fn.Prog.Fset.Position(fn.Pos())
